@@ -372,10 +372,20 @@ def rule_cloner(ctx, R):
         if ps is None:
             R.fail("SHAPE", key + "|paths", "path enumeration failed", where_of(f), fn=f.key)
             continue
-        rets = [p for p in ps if p.end == "return"]
+        rets_all = [p for p in ps if p.end == "return"]
         loops = [p for p in ps if isinstance(p.end, tuple) and p.end[0] == "backedge"]
+        # every returning path must have run both copy loops; a shortcut that skips them returns something
+        # that is not a cell-for-cell copy (slot generations, free list, archetype generation, event logs)
+        rets = []
+        for pi, p in enumerate(rets_all):
+            nloops = len([e for e in p.effects if e[0] == "loop"])
+            if nloops >= 2:
+                rets.append(p)
+            else:
+                R.fail("C13-R2", key + "|shortcut#%d" % pi, "Clone::clone returns under %s after running %d of its 2 copy loops: the result (%s) is not a copy of the slot array / dense arrays of the source" % (
+                    describe_atoms(branch_atoms(p)), nloops, show(N(p.ret))[:160]), where_of(f), fn=f.key)
         R.check(len(rets) == 1 and len(loops) == 2, "C13-R2", key + "|shape", "two copy loops and one exit",
-                "Clone::clone has %d returning paths and %d loop bodies; expected 1 and 2 (slot loop, dense loop)" % (len(rets), len(loops)), where_of(f), fn=f.key)
+                "Clone::clone has %d fully copying returning paths and %d loop bodies; expected 1 and 2 (slot loop, dense loop)" % (len(rets), len(loops)), where_of(f), fn=f.key)
         if len(rets) != 1:
             continue
         rp = rets[0]
